@@ -64,4 +64,16 @@ MORE['C18'] = dict(
           "garbage, negative ids, replays, cancelled-and-restarted signing rounds; byte-exact state comparison after every rejected message), sszdiff, airdiff."),
     ref='7 C18', note=NODE_NOTE + " Airgapped machine: real code under monitors only; no model of the handlers.")
 
+MORE['C07'] = dict(
+    technique='Lean 4 theorems (safety of a collecting batch from the generated table; progress by induction over any list of answers: t well-formed answers of distinct awaited participants end in collected; the node turns collected into broadcast + idle in one step) + differential fsmdiff/nodediff/algdiff with slow-signer schedules and racing proposals on real ceremonies',
+    text=("Proof, partial. lean/Dc4bcVerif/Props/C07.lean: proposal_while_collecting_rejected, other_events_rejected_while_collecting, stale_answer_rejected, answer_in_idle_rejected, answered_twice_rejected "
+          "(nothing but a batch's own answers and failure reports touches it; late answers to a finished batch are refused without effect, in await as well as in idle), valid_contribution_accepted "
+          "(a well-formed answer of a still awaited participant is always accepted), t_answers_collect (for every n, t, payload and every list of answers of pairwise distinct awaited participants, in any "
+          "order: if there are at least t - counted of them the round ends in partial_signs_collected, exactly on the t-th), collected_step (the node posts the reconstructed signatures and saves the round "
+          "restarted in the same step, or saves nothing), addSig_stored. With C06 (failure reports cancel only above n-t), C08 (every node is a function of the board log, so poll order between nodes is irrelevant) "
+          "and C01 (reconstruction from any t valid partial signatures succeeds and gives the unique signature). Not proved: success of reconstruction inside the node (oracle in the node model), wall-clock deadlines. "
+          "Tie: fsmdiff (signing alphabet with stale batches, repeats), nodediff, and algdiff on real ceremonies: every node must hold a prysm-valid signature for every message of every batch that got t answers and be idle, "
+          "under racing proposals and slow-signer schedules (exhaustive for n=3,t=2 with two batches in the thorough tier)."),
+    ref='7 C07', note=NODE_NOTE)
+
 NOT_APPLICABLE = {}
